@@ -5,6 +5,15 @@ T = "RsslVerif.Thm.C02."
 TS = "RsslVerif.Thm.C02Sem."
 TV = "RsslVerif.Thm.C02Vec."
 TD = "RsslVerif.Thm.C02Dup."
+TX = "RsslVerif.Thm.C02Text."
+# the text leg: the tree C02 reasons about reaches the user as text printed by rssl_formatter (Target::Msl).  Printing and
+# reading back is property C09's; its table obligations (re-extracted precedence / associativity / side tables of
+# format_subexpression, the parser's levels, fingerprints of the hand-modelled formatter functions) and its round-trip theorems
+# are C02 obligations too: a change of the formatter's parenthesis rule breaks them here as well (seeded mutant C02-4)
+C09_CITED = ["tables_agree", "assoc_agrees", "ternary_level", "unary_tables_agree", "paren_rule_matches_grammar",
+             "roundtrip_expr_partial", "roundtrip_subexpr_partial", "roundtrip_xexpr_partial", "roundtrip_stmt_partial",
+             "roundtrip_block_partial", "roundtrip_decl_partial", "negative_literal_binds_like_minus", "source_fingerprints"]
+TEXT_THEOREMS = ["right_nested_chain_regrouped_changes_meaning"]
 DUP_THEOREMS = ["dup_sites_guarded", "guard_rows_are_ir_constructors", "repeatable_operand_is_pure_of_sound", "repeatable_operand_is_pure",
                 "struct_cast_meaning_kept", "struct_cast_refuses_iff", "wf_toD", "repeatable_operand_is_pure_ir_of_sound",
                 "repeatable_operand_is_pure_ir", "index_blind_test_repeats_effect"]
@@ -207,8 +216,9 @@ def custom_vec(ctx):
 
 SPEC = {
     "id": "C02",
-    "gens": ["UsageTables", "MslGenTables", "MslVecTables", "MslDupSites"],
-    "lean_modules": ["RsslVerif.Thm.C02", "RsslVerif.Thm.C02Sem", "RsslVerif.Thm.C02Vec", "RsslVerif.Thm.C02Dup"],
+    "gens": ["UsageTables", "MslGenTables", "MslVecTables", "MslDupSites", "FmtTables", "ParseTables", "SyntaxTables"],
+    "lean_modules": ["RsslVerif.Thm.C02", "RsslVerif.Thm.C02Sem", "RsslVerif.Thm.C02Vec", "RsslVerif.Thm.C02Dup", "RsslVerif.Thm.C02Text",
+                     "RsslVerif.Thm.C09"],
     "theorems": [T + n for n in [
         "tables_as_modelled", "all_positions_descended", "implicit_names_agree",
         "recurse_no_panic", "recurse_terminates", "measure_bounded_and_increasing", "close_is_reachability",
@@ -216,7 +226,8 @@ SPEC = {
         "requiredP_order_independent", "required_monotone", "args_align", "args_unchanged_without_implicit", "args_aligned_with_defaults",
         "threaded_exactly_partial", "calculateLocal_wf", "closeProgram_ok", "threaded_exactly_program_partial",
         "mentions_calculateLocal", "threaded_exactly",
-        "default_arguments_analysed", "global_initialisers_analysed"]] + [TS + n for n in SEM_THEOREMS] + [TV + n for n in VEC_THEOREMS] + [TD + n for n in DUP_THEOREMS],
+        "default_arguments_analysed", "global_initialisers_analysed"]] + [TS + n for n in SEM_THEOREMS] + [TV + n for n in VEC_THEOREMS] + [TD + n for n in DUP_THEOREMS]
+                + [TX + n for n in TEXT_THEOREMS] + ["RsslVerif.Thm.C09." + n for n in C09_CITED],
     "harness": "c02",
     "nontrivial": nontrivial,
     "finding_key": finding_key,
